@@ -83,12 +83,48 @@ def to_map(o, e2m):
     )
 
 
-def mk_frame(t, name, objs, e2m=None):
+def give_history(transforms, e2m):
+    """Give a TransformDict the history the library itself produces for interpolated frames
+    (`deepcopy(before_frame)`, then `transforms[(BASE_LINK, MAP)] = interpolated pose`): it was built with a
+    DIFFERENT ego pose, has answered a query in the inverse direction, and then had its ego pose replaced.
+    A registry that keeps anything derived from the old pose (cached inverse, memoised answers) now gives
+    wrong answers; a correct one behaves exactly like a freshly built registry."""
+    from copy import deepcopy
+
+    from perception_eval.common.schema import FrameID
+
+    transforms.transform((FrameID.MAP, FrameID.BASE_LINK), (1.0, 2.0, 0.0))
+    transforms.transform((FrameID.MAP, FrameID.BASE_LINK), (1.0, 2.0, 0.0), quat_yaw(0.25))
+    t2 = deepcopy(transforms)
+    t2[(FrameID.BASE_LINK, FrameID.MAP)] = e2m
+    return t2
+
+
+def decoy_pose(e2m):
+    """an ego pose clearly different from `e2m` (other yaw, shifted by tens of metres)"""
+    p = [float(v) for v in e2m.position]
+    yaw = float(e2m.rotation.yaw_pitch_roll[0])
+    return ego2map(p[0] + 37.5, p[1] - 61.25, yaw + 1.1, p[2])
+
+
+def mk_frame(t, name, objs, e2m=None, history=False):
     from perception_eval.common.dataset import FrameGroundTruth
 
     if e2m is None:
         e2m = ego2map(0, 0, 0.0)
-    return FrameGroundTruth(t, str(name), list(objs), transforms=[e2m])
+    if not history:
+        return FrameGroundTruth(t, str(name), list(objs), transforms=[e2m])
+    f = FrameGroundTruth(t, str(name), list(objs), transforms=[decoy_pose(e2m)])
+    f.transforms = give_history(f.transforms, e2m)
+    return f
+
+
+def mk_transforms(e2m, history=False):
+    from perception_eval.common.transform import TransformDict
+
+    if not history:
+        return TransformDict([e2m])
+    return give_history(TransformDict([decoy_pose(e2m)]), e2m)
 
 
 BASE_CFG = {
@@ -142,3 +178,19 @@ def pf_cfg(cfg, labels, thr):
     from perception_eval.evaluation.result.perception_frame_config import PerceptionPassFailConfig
 
     return PerceptionPassFailConfig(cfg, labels, matching_threshold_list=thr)
+
+
+def maybe_history(frame_or_td, e2m, key):
+    """deterministically (from `key`) give the registry of a frame / a TransformDict the history of
+    `give_history`; returns the frame / registry to use"""
+    import zlib
+
+    from perception_eval.common.transform import TransformDict
+
+    if zlib.crc32(repr(key).encode()) % 2:
+        return frame_or_td
+    td = give_history(TransformDict([decoy_pose(e2m)]), e2m)
+    if isinstance(frame_or_td, TransformDict):
+        return td
+    frame_or_td.transforms = td
+    return frame_or_td
